@@ -50,6 +50,11 @@ def check(ctx):
     opens = b.calls_to(OO + "::open")
     modes = b.calls_to(OO + "::mode")
     ctx.floor(R1, "OpenOptions::open in write_file", len(opens), 1)
+    # the mode reaches the file ONLY through open(2)'s creation mode, which the kernel masks with the umask: no chmod/fchmod of a
+    # storage file anywhere in acmed (it would set bits the administrator's umask forbids)
+    chm = [c for c in prog.all_calls_to("*::set_permissions", "*PermissionsExt::set_mode", "*::fchmod", "*::chmod", "*::fchmodat", "std::fs::set_permissions", "tokio::fs::set_permissions::set_permissions",
+                                        crates=("acmed", "acme_common"), include_derive=True)]
+    ctx.require(R1, not chm, chm[0].where() if chm else "%s:%s" % (b.file, b.line), "no chmod/fchmod/set_permissions on stored files (found %s)" % [c.name for c in chm], [WF, "chmod-bypasses-umask"])
     for o in opens:
         recv = arg_origins(o, 0)
         mine = [m for m in modes if arg_origins(m, 0).locals & recv.locals]
@@ -83,6 +88,46 @@ def check(ctx):
 
     R2 = ctx.rule("R2", "set_owner applies (cert owner, cert group) / (pk owner, pk group) / nothing; uid->uid slot, gid->gid slot; errors returned; success only after set_owner")
     so = prog.must_body("acmed::storage::set_owner")
+    # set_owner EVALUATED over (file type) x (owner configured?) x (group configured?) x (numeric | named): chown receives Some(uid)
+    # exactly when an owner is configured and Some(gid) exactly when a group is, each resolved through its own database
+    from ..absint import NONE, Val, marker, ok, some, struct_val, vbool, vstr
+
+    def so_model(numeric):
+        def model(cs, args):
+            n = cs.name or ""
+            if cs.fn == "core::iter::traits::iterator::Iterator::all":
+                return vbool(numeric)
+            if n.endswith("::parse"):
+                return ok(marker("RAW"))
+            if n.endswith("Uid::from_raw"):
+                return Val("unknown", "UID(raw)")
+            if n.endswith("Gid::from_raw"):
+                return Val("unknown", "GID(raw)")
+            if n.endswith("User::from_name"):
+                return ok(some(Val("adt", [marker("n"), marker("p"), Val("unknown", "UID(name)"), Val("unknown", "GID(of-user)")], ("nix::unistd::User", "User"))))
+            if n.endswith("Group::from_name"):
+                return ok(some(Val("adt", [marker("n"), marker("p"), Val("unknown", "GID(name)")], ("nix::unistd::Group", "Group"))))
+            if n.endswith("unistd::chown"):
+                return ok(Val("unit"))
+            return None
+        return model
+    for ftv, pre in (("Certificate", "cert"), ("PrivateKey", "pk")):
+        for u in (True, False):
+            for g in (True, False):
+                for numeric in (True, False):
+                    fm = struct_val(prog, FM, {pre + "_file_owner": some(vstr("U")) if u else NONE, pre + "_file_group": some(vstr("G")) if g else NONE})
+                    r = run(so, {1: Val("ref", fm), 2: Val("ref", marker("PATH")), 3: variant(FT, ftv)}, so_model(numeric), max_steps=20000)
+                    ch = [[repr(x.deref()) for x in a] for c, a, res in r.calls if (c.name or "").endswith("unistd::chown")]
+                    kind = "raw" if numeric else "name"
+                    want_u = "Some[?UID(%s)]" % kind if u else "None"
+                    want_g = "Some[?GID(%s)]" % kind if g else "None"
+                    if not (u or g):
+                        good = r.kind == "return" and all(x[1].endswith("None") and x[2].endswith("None") for x in ch)
+                    else:
+                        good = r.kind == "return" and len(ch) == 1 and ch[0][1].endswith(want_u) and ch[0][2].endswith(want_g) and "PATH" in ch[0][0]
+                    ctx.require(R2, good, "%s:%s" % (so.file, so.line), "%s file, owner %s, group %s (%s): chown(path, %s, %s) — found %s (run %s)"
+                                % (ftv, "set" if u else "unset", "set" if g else "unset", "numeric" if numeric else "named", want_u, want_g, ch, r.kind),
+                                ["set_owner", "chown-table", ftv, str(u), str(g), kind])
     for v in prog.adt_variants(FT):
         r = run(so, {3: variant(FT, v)})
         if v == "Account":
